@@ -551,7 +551,7 @@ def run(loader, R, tier):
     sibling_overloads(prog, R)
 
 
-def sibling_overloads(prog, R):
+def sibling_overloads(prog, R, rid="R5.4"):
     """R5.4: the Integer and the Rational overload of each Complex arithmetic
     member (addcomp, subcomp, rsubcomp, mulcomp, divcomp, rdivcomp, ...) are
     the same formula — the Integer is only widened to a rational first — so
@@ -619,7 +619,7 @@ def sibling_overloads(prog, R):
                 or not any(k[0] in ("+", "-", "*", "/", "neg") for k in sr):
             continue
         npairs += 1
-        R.instance("R5.4", "Complex::" + name, sample={
+        R.instance(rid, "Complex::" + name, sample={
             "method": name,
             "signature": sorted("%s x%d" % (" ".join(k), v)
                                 for k, v in sr.items())[:8]})
@@ -627,7 +627,7 @@ def sibling_overloads(prog, R):
             only_i = sorted(" ".join(k) for k in (si - sr))
             only_r = sorted(" ".join(k) for k in (sr - si))
             R.violation(
-                "R5.4", "Complex::" + name, prog.loc(fr),
+                rid, "Complex::" + name, prog.loc(fr),
                 "Complex::%s(const Rational&) and Complex::%s(const "
                 "Integer&) are the same formula but differ: only in the "
                 "Integer overload {%s}, only in the Rational overload {%s}"
